@@ -83,6 +83,7 @@ def _has_missing(x):
 
 
 ELEMENTWISE = [True]  # set per case: the program has no final reduction / groupby
+REPLACES = [False]  # set per case: the program contains a value-replacing step (where/mask/fillna/clip/min_count)
 USER_META = [False]  # set per case: the program passes meta= itself (map/apply/transform/shift)
 
 
@@ -114,10 +115,14 @@ def dtype_ok(meta_dt, got_dt, values, empty_ok):
         # reduction/groupby result: pandas' dtype follows from the input dtypes; integer announced and float
         # computed is acceptable only through missing values
         return len(values) == 0 or _has_missing(values)
-    # value-dependent numeric upcasts (missing values, where/mask/fillna/clip replacing values by floats or by
-    # nullable values, min_count, ...) cannot be inferred statically: dask's own check_meta(numeric_equal=True)
-    # documents integer and floating dtypes as equal for that reason
-    return True
+    # value-dependent numeric upcasts cannot be inferred statically; dask's own check_meta(numeric_equal=True)
+    # documents integer and floating dtypes as equal for that reason.  Accepted when the reason is visible:
+    # missing values are really there, the program replaces values (where/mask/fillna/clip: an int column
+    # becomes float/nullable only if a replacement actually happens), min_count, or the lazy side is the wider
+    # one (float announced because the fake data dask infers from contains a missing value, int computed).
+    if len(values) == 0 or _has_missing(values) or REPLACES[0]:
+        return True
+    return mf[0] == gf[0] and mf[1] == "f" and gf[1] in "iu"
 
 
 def index_facts(ix):
@@ -243,6 +248,10 @@ def check(spec):
         sig["by"] = "index" if g["by"] == "index" else "series" if isinstance(g["by"], dict) else "cols"
     ELEMENTWISE[0] = not spec.get("final")
     USER_META[0] = uses_user_meta(spec)
+    REPLACES[0] = any(
+        n.get("op") in ("where", "mask", "fillna", "clip") or n.get("e") in ("where", "mask") or n.get("m") in ("fillna", "clip") or "min_count" in (n.get("kw") or {})
+        for n in D.walk([spec.get("ops", []), spec.get("final") or {}])
+    )
     with warnings.catch_warnings(), np.errstate(all="ignore"):
         warnings.simplefilter("ignore")
         status, want = reference(run_program, case.base, spec, envp)
